@@ -7,6 +7,7 @@ import (
 	"sort"
 	"strings"
 	"sync"
+	"sync/atomic"
 	"time"
 
 	"github.com/vx-labs/wasp/v4/subscriptions"
@@ -127,7 +128,7 @@ func c01Class(f, topic string, got, want []string) string {
 }
 
 func runC01(c *fw.Ctx) {
-	c.Rule = "(1) trie level: every valid filter of <=4 levels over {a,b,c,+,#,''} ('#' last only) alone x every topic of <=4 levels over {a,b,c,''} - complete; filter sets of size 2-4 (all pairs in the thorough tier, seeded sample in quick) inserted in several orders and through subscribe/unsubscribe/re-subscribe histories ending in the same active set, with malformed filters ('#' not last) as bystanders; oracle = MQTT 3.1.1 4.7 matcher on level arrays, results compared as multisets; Iterate must list exactly the active set. (2) replicated index: seeded Create/Delete histories over 3 sessions x filters, ByPattern(topic) compared with the model after every step, then at a second replica that joins through the full-state exchange and at the first after the echoed exchange and a second delivery of every broadcast. (3) end to end: broker node over pipes, 3-5 QoS 0 subscriber sessions with generated filter sets (incl. unsubscribe/re-subscribe histories), a QoS 1 publisher sending uniquely tagged payloads and waiting for each PUBACK, sentinel barrier; per session the multiset of received (topic,tag) must be one copy per matching active filter. distinct = (filter set, order/history, topic); non-trivial = the set has at least one matching and one non-matching (filter,topic) pair"
+	c.Rule = "(1) trie level: every valid filter of <=4 levels over {a,b,c,+,#,''} ('#' last only) alone x every topic of <=4 levels over {a,b,c,''} - complete; filter sets of size 2-4 (all pairs in the thorough tier, seeded sample in quick) inserted in several orders and through subscribe/unsubscribe/re-subscribe histories ending in the same active set, with malformed filters ('#' not last) as bystanders; oracle = MQTT 3.1.1 4.7 matcher on level arrays, results compared as multisets; Iterate must list exactly the active set. (2) replicated index: seeded Create/Delete histories over 3 sessions x filters, ByPattern(topic) compared with the model after every step, then at a second replica that joins through the full-state exchange and at the first after the echoed exchange and a second delivery of every broadcast. (2b) lookups from 4 goroutines while 4 others subscribe/unsubscribe sibling filters: untouched subscriptions are reported exactly once by every lookup. (3) end to end: broker node over pipes, 3-5 QoS 0 subscriber sessions with generated filter sets (incl. unsubscribe/re-subscribe histories), a QoS 1 publisher sending uniquely tagged payloads (plus up to three RETAIN-flagged zero-length ones) and waiting for each PUBACK, sentinel barrier; per session the multiset of received (topic,tag) must be one copy per matching active filter. distinct = (filter set, order/history, topic); non-trivial = the set has at least one matching and one non-matching (filter,topic) pair"
 	c.Assume("'$'-prefixed topics are outside the alphabets; the empty string is neither a topic nor a filter")
 	workers := runtime.NumCPU()
 	fsyms := []string{"a", "b", "c", "+", "#", ""}
@@ -340,6 +341,7 @@ func runC01(c *fw.Ctx) {
 	c.Extra("exhaustive_part", fmt.Sprintf("every single filter (%d) x every topic (%d)%s", len(filters), len(topics), map[bool]string{true: "", false: "; every pair of filters x every topic x 3 histories"}[c.Quick()]))
 
 	c01Index(c)
+	c01ConcurrentIndex(c)
 	c01EndToEnd(c, filters, topics)
 }
 
@@ -426,6 +428,78 @@ func c01Index(c *fw.Ctx) {
 		c.Case("index|"+strings.Join(trace, " "), len(active) > 0)
 		if h == 0 {
 			c.Sample(map[string]interface{}{"part": "index", "history": trace})
+		}
+	}
+}
+
+// c01ConcurrentIndex: recipient lookups run while sibling filters are subscribed and unsubscribed.
+// Subscriptions that are never touched must be reported by every lookup, exactly once.
+func c01ConcurrentIndex(c *fw.Ctx) {
+	rounds := c.Pick(4, 30)
+	for r := 0; r < rounds; r++ {
+		rep := kit.NewReplica(1)
+		stable := map[string]bool{}
+		for i, f := range []string{"mp/a/b", "mp/a/+", "mp/#", "mp/+/b"} {
+			sid := fmt.Sprintf("st%d", i)
+			rep.S.Subscriptions().Create(sid, []byte(f), 0)
+			stable[sid+" "+f] = true
+		}
+		rep.S.Subscriptions().Create("st9", []byte("mp/a/c"), 0) // does not match the looked-up topic
+		var wg sync.WaitGroup
+		var bad atomic.Value
+		var lookups int64
+		stop := make(chan struct{})
+		for g := 0; g < 4; g++ {
+			wg.Add(1)
+			go func(g int) {
+				defer wg.Done()
+				for i := 0; ; i++ {
+					select {
+					case <-stop:
+						return
+					default:
+					}
+					seen := map[string]int{}
+					for _, sub := range rep.S.Subscriptions().ByPattern([]byte("mp/a/b")) {
+						seen[sub.SessionID+" "+string(sub.Pattern)]++
+					}
+					atomic.AddInt64(&lookups, 1)
+					for k := range stable {
+						if seen[k] != 1 {
+							bad.Store(fmt.Sprintf("lookup of mp/a/b while sibling filters change reported the untouched subscription (%s) %d time(s)", k, seen[k]))
+						}
+					}
+					if seen["st9 mp/a/c"] != 0 {
+						bad.Store("lookup of mp/a/b reported the subscription (st9 mp/a/c)")
+					}
+				}
+			}(g)
+		}
+		var mw sync.WaitGroup
+		for g := 0; g < 4; g++ {
+			mw.Add(1)
+			go func(g int) {
+				defer mw.Done()
+				rg := c.SubRng(fmt.Sprintf("c01/conc/%d", r), g)
+				for i := 0; i < 1500; i++ {
+					f := []string{"mp/a/b", "mp/a/x", "mp/a/y/z", "mp/a/+", "mp/b/b", "mp/a"}[rg.Intn(6)]
+					sid := fmt.Sprintf("vol%d-%d", g, rg.Intn(3))
+					if rg.Intn(2) == 0 {
+						rep.S.Subscriptions().Create(sid, []byte(f), 0)
+					} else {
+						rep.S.Subscriptions().Delete(sid, []byte(f))
+					}
+				}
+			}(g)
+		}
+		mw.Wait()
+		close(stop)
+		wg.Wait()
+		c.Observe("concurrent_index_lookups", int(lookups))
+		c.Case(fmt.Sprintf("concurrent-index|%d", r), true)
+		if v := bad.Load(); v != nil {
+			c.Violation("index:concurrent-lookup", fmt.Sprintf("replicated index, round %d: %s", r, v.(string)), map[string]interface{}{"round": r})
+			return
 		}
 	}
 }
@@ -552,6 +626,23 @@ func c01Scenario(c *fw.Ctx, s int, filters, topics []string) {
 			return
 		}
 		sentList = append(sentList, sent{topic, tag})
+	}
+	// publishes with the RETAIN flag and a zero-length payload (they clear a retained slot AND are
+	// messages like any other): recognised by their topic, one per topic
+	emptyOn := map[string]bool{}
+	for _, m := range sentList {
+		if len(emptyOn) < 3 && !emptyOn[m.topic] && rg.Intn(4) == 0 {
+			emptyOn[m.topic] = true
+		}
+	}
+	for topic := range emptyOn {
+		acked, err := pub.Publish(topic, nil, 1, true, kit.DefaultWait)
+		if !acked {
+			c.Inconclusive(fmt.Sprintf("scenario %d: publish %q not acknowledged: %v", s, topic, err))
+			return
+		}
+		sentList = append(sentList, sent{topic, ""})
+		c.Observe("e2e_retained_empty_publishes", 1)
 	}
 	if acked, err := pub.Publish("zz/sentinel", []byte("END"), 1, false, kit.DefaultWait); !acked {
 		c.Inconclusive(fmt.Sprintf("scenario %d: sentinel not acknowledged: %v", s, err))
